@@ -83,6 +83,29 @@ pub fn drain_trace() -> String {
     "trace unavailable".into()
 }
 
+/// fine io-trace (one event per VarFile primitive): `iotrace on|off`, `iodrain`
+#[cfg(abyssiniandb_verif)]
+pub fn io_trace(arg: Option<&str>) -> String {
+    match arg {
+        Some(sw) => {
+            abyssiniandb::filedb::verif_probe::io_trace_enable(sw == "on");
+            "ok".into()
+        }
+        None => {
+            let mut s = String::from("io");
+            for e in abyssiniandb::filedb::verif_probe::drain_io_trace() {
+                s.push(' ');
+                s.push_str(&e);
+            }
+            s
+        }
+    }
+}
+#[cfg(not(abyssiniandb_verif))]
+pub fn io_trace(_arg: Option<&str>) -> String {
+    "io unavailable".into()
+}
+
 /// conversions: one line per integer: u64/i64/vu64 key bytes by value and by reference, and back
 fn conv(args: &[String]) {
     use abyssiniandb::{DbMapKeyType, HashValue};
